@@ -24,21 +24,31 @@ def build_rho(dims, terms):
     return rho / np.trace(rho).real
 
 
-def evaluate(ctx, rho, dims, sdp, label):
+def evaluate(ctx, rho, dims, sdp, label, heavy_only_small=False):
     """call every criterion the library offers; one event per call logged at its return"""
     import numqi
     E = numqi.entangle
     ev = []
 
+    import time
+    rt = ctx.extra.setdefault('route_seconds', {})
+
+    def timed(name, f):
+        t0 = time.time()
+        try:
+            return f()
+        finally:
+            rt[name] = round(rt.get(name, 0.0) + time.time() - t0, 1)
+
     def verdict(crit, f):
         try:
-            ev.append(dict(op='verdict', crit=crit, value=bool(f())))
+            ev.append(dict(op='verdict', crit=crit, value=bool(timed(crit, f))))
         except Exception as ex:
             ev.append(dict(op='exception', crit=crit, error=type(ex).__name__ + ': ' + str(ex)[:120]))
 
     def measure(name, f, tol=ZERO_TOL):
         try:
-            v = float(np.real(f()))
+            v = float(np.real(timed(name, f)))
             ev.append(dict(op='measure', name=name, finite=bool(np.isfinite(v)), zero=bool(np.isfinite(v) and abs(v) <= tol), raw=repr(v)))
         except Exception as ex:
             ev.append(dict(op='exception', crit=name, error=type(ex).__name__ + ': ' + str(ex)[:120]))
@@ -55,7 +65,10 @@ def evaluate(ctx, rho, dims, sdp, label):
         measure('get_gme_2qubit', lambda: E.get_gme_2qubit(rho))
     if sdp and len(dims) == 2 and dims[0] * dims[1] <= 9:
         verdict('is_ABk_symmetric_ext(k=2)', lambda: E.is_ABk_symmetric_ext(rho, dims, kext=2))
-        verdict('is_ABk_symmetric_ext(k=3,boson)', lambda: E.is_ABk_symmetric_ext(rho, dims, kext=3, use_boson=True))
+        verdict('is_ABk_symmetric_ext(k=1,ppt)', lambda: E.is_ABk_symmetric_ext(rho, dims, kext=1, use_ppt=True))
+        if sdp > 1 or dims[0] * dims[1] <= 6 or not heavy_only_small:       # minutes on rank-deficient 3x3 / 2x4 objects: thorough tier only
+            verdict('is_ABk_symmetric_ext(k=3,boson)', lambda: E.is_ABk_symmetric_ext(rho, dims, kext=3, use_boson=True))
+            verdict('is_ABk_symmetric_ext(k=2,ppt)', lambda: E.is_ABk_symmetric_ext(rho, dims, kext=2, use_ppt=True))
         # further routes to the same sets: the naive (unsymmetrised) extension SDP, and the SDP-based measures that vanish on the
         # PPT / extendible sets, hence on every separable state
         verdict('is_ABk_symmetric_ext_naive(k=2)', lambda: E.is_ABk_symmetric_ext_naive(rho, dims, 2)[0])
@@ -83,25 +96,34 @@ def run(ctx):
     meta = []
     r = tlc.run('contract/Sim_Sep.tla', 'contract/Sim_Sep.cfg', simulate=dict(num=40 if quick else 400, file=True), depth=10, seed=ctx.seed + 7, workers=8, timeout=3000)
     ctx.add_model('Sim_Sep', r, exhaustive=False)
-    nsdp = 0
+    # the SDP subset: bipartite objects of dimension <= 9, chosen so that every shape of local dimensions is represented (square AND
+    # rectangular: the index bookkeeping of the extension SDPs differs between dimA and dimB)
+    cand = []
     for fi, f in enumerate(r.sim_files):
         beh = tlc.parse_behaviour(f)
-        # evaluate the final object and one intermediate object of every behaviour
         for idx in sorted({len(beh) - 1, max(1, len(beh) // 2)}):
             obj = beh[idx][1]['obj']
-            if obj['prov'] != 'SEP':
-                continue
-            dims = list(obj['dims'])
-            rho = build_rho(dims, obj['terms'])
-            sdp = 0
-            if len(dims) == 2 and dims[0] * dims[1] <= 9 and nsdp < (4 if quick else 30):
-                sdp = 1 if (quick or dims[0] * dims[1] > 6) else 2      # k=3,4 extensions only on 2x2 and 2x3 (minutes per object on 3x3)
-                nsdp += 1
-            ev = evaluate(ctx, rho, dims, sdp, 'sep')
-            hist = beh[idx][1]['hist']
-            traces.append([dict(op='object', dims=dims, terms=obj['terms'])] + ev)
-            meta.append(dict(kind='separable', dims=dims, history=hist, terms=obj['terms']))
-            ctx.case(('sep', tuple(dims), repr(obj['terms'])))
+            if obj['prov'] == 'SEP':
+                cand.append((fi, idx, obj, beh[idx][1]['hist']))
+    per_shape = 1 if quick else 6
+    chosen, count = set(), {}
+    for fi, idx, obj, hist in cand:
+        dims = tuple(obj['dims'])
+        if len(dims) == 2 and dims[0] * dims[1] <= 9 and count.get(dims, 0) < per_shape:
+            count[dims] = count.get(dims, 0) + 1
+            chosen.add((fi, idx))
+    nsdp = len(chosen)
+    for fi, idx, obj, hist in cand:
+        dims = list(obj['dims'])
+        rho = build_rho(dims, obj['terms'])
+        sdp = 0
+        if (fi, idx) in chosen:
+            sdp = 1 if (quick or dims[0] * dims[1] > 6) else 2      # k=3,4 extensions only on 2x2 and 2x3 (minutes per object on 3x3)
+        ev = evaluate(ctx, rho, dims, sdp, 'sep', heavy_only_small=quick)
+        traces.append([dict(op='object', dims=dims, terms=obj['terms'])] + ev)
+        meta.append(dict(kind='separable', dims=dims, history=hist, terms=obj['terms']))
+        ctx.case(('sep', tuple(dims), repr(obj['terms'])))
+    ctx.extra['sdp_shapes'] = {str(k): v for k, v in count.items()}
     # families with exact rational parameter, both polarities
     for fam in ('Werner', 'Isotropic'):
         for d in (2, 3):
